@@ -199,13 +199,18 @@ func supervise() {
 		}
 	}
 	budget := 75 * time.Second
+	deep := false
 	for i, a := range os.Args {
 		if a == "-tier" && i+1 < len(os.Args) && os.Args[i+1] == "thorough" {
 			budget = 15 * time.Minute
 		}
 		if a == "-deep" {
-			budget = 15 * time.Minute
+			deep = true
 		}
+	}
+	if deep {
+		// a tie broke: the search is for ONE failing input; the corpus comes first and hung calls cost seconds each
+		budget = 4 * time.Minute
 	}
 	deadline := time.Now().Add(budget)
 	var crashes []h.Failure
